@@ -9,6 +9,7 @@ from fxv.ch.c19_model import isolated_impl, scoped_impl  # noqa: E402
 MAXLEN = int(os.environ.get('C19_MAXLEN', '4'))
 FIRST = int(os.environ.get('C19_FIRST', '-1'))
 MODE = os.environ.get('C19_MODE', 'scoped')
+ALLOWED = [int(c) for c in os.environ.get('C19_ALLOWED', '').split(',') if c]
 
 
 def first_ok(events):
@@ -16,6 +17,8 @@ def first_ok(events):
 
 
 def all_in(xs, lo, hi):
+    if ALLOWED and hi > 3:
+        return all(x in ALLOWED for x in xs)
     return all(lo <= x <= hi for x in xs)
 
 
@@ -23,7 +26,7 @@ if MODE == 'scoped':
     def _scoped(events: List[int]) -> bool:
         """
         pre: 1 <= len(events) <= MAXLEN
-        pre: all_in(events, 0, 8)
+        pre: all_in(events, 0, 11)
         pre: first_ok(events)
         post: _
         """
